@@ -5,7 +5,7 @@ from __future__ import annotations
 import re
 import signal
 
-TOKEN_MENU = ["", "abc", "-", "1e999", "99999999999", "*****", "nan", "MULT1000", "DEC1", "INC1", "HUGEINT"]
+TOKEN_MENU = ["", "abc", "-", "1e999", "99999999999", "*****", "nan", "MULT1000", "DEC1", "INC1", "HUGEINT", "ZERO"]
 
 
 class Timeout(BaseException):  # not an Exception: the API wrappers translate every Exception into LoadError
@@ -74,6 +74,10 @@ def token_substitutions(text: str, menu=TOKEN_MENU, max_tokens=None):
                 if not tok.isdigit():
                     continue
                 new = str(int(tok) * 1000 + 7)
+            elif rep == "ZERO":  # a count of zero where a positive count stands
+                if not tok.isdigit() or int(tok) == 0:
+                    continue
+                new = "0".rjust(len(tok))
             elif rep == "HUGEINT":  # an integer beyond 64 bits where an integer stands
                 if not tok.isdigit():
                     continue
